@@ -74,3 +74,18 @@ Theorem C06_jpeg_missing_chunks : forall inflate (jits : list jitem) (n : nat) f
           md_icc := match cs with [] => IccNone | _ => IccErr end |}.
 Proof. exact jpeg_icc_missing_chunks. Qed.
 Print Assumptions C06_jpeg_missing_chunks.
+
+(* JPEG, damaged: a chunk with a wrong total, number 0, a number beyond the total or a number already
+   seen, arriving while the set is incomplete: a profile ERROR with the basic metadata, whatever follows *)
+Theorem C06_jpeg_damaged_chunk : forall inflate (A B : list jitem) (bad : chunk) (n : nat) fr sos body fuel,
+  let jits := A ++ [JIcc bad] ++ B in
+  1 <= n <= 255 ->
+  (forall c, In c (chunks_of A) -> ctotal c = N.of_nat n /\ (1 <= cseq c <= N.of_nat n)%N) ->
+  NoDup (map cseq (chunks_of A)) -> length (chunks_of A) < n ->
+  bad_chunk n (chunks_of A) bad -> (cseq bad < 256)%N -> (ctotal bad < 256)%N ->
+  sofs_of jits = [fr] -> Forall jitem_ok jits ->
+  Forall item_ok (map enc jits) -> seg_ok 0xda sos -> length jits < fuel ->
+  fst (run_pure inflate (jpeg_prog fuel) (jpeg_file (map enc jits) sos body))
+  = Ok {| md_format := JPEG; md_w := fst (fst fr); md_h := snd (fst fr); md_bits := snd fr; md_icc := IccErr |}.
+Proof. exact jpeg_icc_damaged. Qed.
+Print Assumptions C06_jpeg_damaged_chunk.
